@@ -22,6 +22,8 @@ import FxVerif.Model.C08Gen
 import FxVerif.Proofs.C08Gen
 import FxVerif.Model.C08Sol
 import FxVerif.Gen.C08d
+import FxVerif.Model.C08DepI
+import FxVerif.Proofs.C08Dep
 /-!
 # C08 — coin ↔ ERC-20 conversion conserves value and keeps the token-pair books balanced
 
@@ -1376,5 +1378,94 @@ example :
   decide
 
 end Fip20Source
+
+/-! ### the StateDB cache / journal model is what the ethermint fork's source says (Model/C08Dep*.lean, Gen/C08e.lean, round 5) -/
+
+section StateDBSource
+open FxVerif.Model.C08Cache FxVerif.Model.C08Dep FxVerif.Gen.C08e FxVerif.Proofs.C08Dep
+
+/-- **`GetState` / `SetState` of the hand model are the fork's functions**: interpreting the statement lists of
+`(*stateObject).GetState` (→ `GetCommittedState`) and `SetState` (→ `GetState`, journal append, `setState`) — regenerated from
+`x/evm/statedb/state_object.go` in the module cache on every run — on ANY state object, slot and value gives exactly
+`Outer.read` / `Outer.write` (dirty first, then origin, else load AND cache in origin; a write of the current value records
+nothing) and appends exactly the journal entry `(slot, value before the write)`.  A reordered lookup, a dropped
+`originStorage[key] = value`, a dropped `prev == value` test or journal append breaks this proof. -/
+theorem statedb_read_write_match_code :
+    (∀ k o j, iGetState k ⟨o, j⟩ = some ((o.read k).1, ⟨(o.read k).2, j⟩)) ∧
+    (∀ k v o j, (iSetState k v ⟨o, j⟩).map (·.o) = some (o.write k v)) ∧
+    (∀ k v o j, (iSetState k v ⟨o, j⟩).map (·.journal) =
+      some (if (o.read k).1 = v then j else (k, (o.read k).1) :: j)) ∧
+    (∀ s a, iStepAcc s a = some (stepAcc s a)) := by
+  refine ⟨iGetState_eq, fun k v o j => ?_, fun k v o j => ?_, iStepAcc_eq⟩
+  · rw [iSetState_eq]; simp [write_eq_step]
+  · rw [iSetState_eq]
+    by_cases h : (o.read k).1 = v <;> simp [stepAcc, h]
+
+/-- **every token program runs through the interpreted source as through the hand model**: the slot accesses of any `TProg`
+(the compiled FIP20 methods included, `fip20_programs_match_code`), executed statement by statement by the regenerated
+`GetState` / `SetState`, never get stuck and leave the StateDB `runOuter` computes -/
+theorem statedb_program_run_matches_code (p : TProg) (o : Outer) (j : List (Slot × Nat)) :
+    ∃ s', iRunAcc (accsOf p o) ⟨o, j⟩ = some s' ∧ s'.o = (runOuter p o).2 :=
+  ⟨_, iRunAcc_eq _ _, runAcc_accsOf p o j⟩
+
+/-- **`Commit` of the hand model is the fork's slot loop**: the regenerated body of
+`for _, key := range obj.dirtyStorage.SortedKeys()` (`value := dirtyStorage[key]`; skip when equal to `originStorage[key]`;
+`keeper.SetState`) run over the dirty keys of ANY state object never gets stuck and writes, slot by slot, the store
+`Outer.commit` describes — in particular a dirty slot whose value equals its origin value is NOT written, so whatever a
+nested call stored there survives, and one that differs overwrites it -/
+theorem statedb_commit_matches_code (s : ObjSt) :
+    ∃ s', iCommit s = some s' ∧ ∀ k, s'.o.store k = s.o.commit k :=
+  iCommit_eq s
+
+/-- the facts of the nested-call model read off the source: `Commit` writes the native store before the dirty slots (so the
+dirty slots win), a keeper-level call (`ApplyMessageWithConfig`) builds a NEW StateDB over the ctx it is given (so it sees
+the store, never the caller's caches: `nestedCall`) and commits it iff asked -/
+theorem statedb_nested_call_facts_match_code :
+    commit_nativeStoreFirst = true ∧ commit_rangesOverDirtyKeys = true ∧
+    applyMessage_freshStateDB = true ∧ applyMessage_commitsIffAsked = true := by
+  decide
+
+/-- **`RevertToSnapshot` of the hand model is the fork's journal replay**: take ANY StateDB state at the snapshot (`snap`, with
+any journal `j0` below it) and ANY sequence of reads, writes and native-store changes after it (every frame body is one).
+Undoing the storage entries appended since the snapshot with the regenerated `storageChange.Revert` (= `setState(key,
+prevalue)`), in the order of the regenerated loop header (`journalRevert_newestFirst`), never gets stuck, leaves the journal
+truncated to `j0`, leaves `originStorage` as it is at the point of failure (NOT restored) and leaves in `dirtyStorage`, slot
+by slot, exactly what `Outer.revertTo snap cur` holds: a slot dirty at the snapshot has its snapshot value back, a slot first
+written after the snapshot KEEPS an entry holding its origin value. -/
+theorem statedb_revert_matches_code (snap : Outer) (j0 : List (Slot × Nat)) (accs : List Acc) :
+    let cur := runAcc accs ⟨snap, j0⟩
+    iRunAcc accs ⟨snap, j0⟩ = some cur ∧
+    ∃ seg s', cur.journal = seg ++ j0 ∧ iRevertTo seg j0 cur.o = some s' ∧ s'.journal = j0 ∧
+      s'.o.origin = cur.o.origin ∧ ∀ k, FxVerif.Model.C08Cache.lookup k s'.o.dirty = FxVerif.Model.C08Cache.lookup k (snap.revertTo cur.o).dirty := by
+  intro cur
+  refine ⟨iRunAcc_eq _ _, ?_⟩
+  obtain ⟨seg, hj, hi⟩ := (JInv.init snap).run (j0 := j0) accs
+  simp only [List.nil_append] at hj hi
+  refine ⟨seg, ⟨replay seg cur.o, j0⟩, hj, ?_, rfl, (replay_frame seg cur.o).1, fun k => hi.revert k⟩
+  simp [iRevertTo, journalRevert_revertsEntry, journalRevert_newestFirst, journalRevert_truncates, revertAll_eq]
+
+/-- the ORDER of the replay matters (and is the regenerated one): a frame that writes the same slot twice (7 → 5 → 9) has the
+entries `(k, 5)` (newest) and `(k, 7)`; newest-first ends with the snapshot value 7, oldest-first would end with the
+intermediate value 5 -/
+theorem journal_revert_order_matters :
+    let snap : Outer := { store := fun _ => 7 }
+    let cur := runAcc [.wr .supply 5, .wr .supply 9] ⟨snap, []⟩
+    cur.journal = [(.supply, 5), (.supply, 7)] ∧
+    (revertAll cur.journal cur).map (fun (s : ObjSt) => FxVerif.Model.C08Cache.lookup Slot.supply s.o.dirty) = some (some 7) ∧
+    FxVerif.Model.C08Cache.lookup Slot.supply (snap.revertTo cur.o).dirty = some 7 ∧
+    (revertAll cur.journal.reverse cur).map (fun (s : ObjSt) => FxVerif.Model.C08Cache.lookup Slot.supply s.o.dirty) = some (some 5) := by
+  decide
+
+/-- non-vacuity: a frame that reads one slot, writes another twice and a third back to its old value, after a keeper-level
+call changed the store: two entries are undone, the read slot stays cached -/
+example :
+    let snap : Outer := { store := store0 50 0 0 100 0, dirty := [(.bal 1, 3)] }
+    let cur := runAcc [.rd (.bal 0), .native (store0 30 0 0 80 0), .wr (.bal 1) 8, .wr (.bal 1) 9, .wr .supply 80] ⟨snap, []⟩
+    cur.journal = [(.bal 1, 8), (.bal 1, 3)] ∧
+    (iRevertTo cur.journal [] cur.o).map (fun (s : ObjSt) => (FxVerif.Model.C08Cache.lookup (Slot.bal 1) s.o.dirty, FxVerif.Model.C08Cache.lookup (Slot.bal 0) s.o.origin, FxVerif.Model.C08Cache.lookup Slot.supply s.o.origin)) =
+      some (some 3, some 50, some 80) := by
+  decide
+
+end StateDBSource
 
 end FxVerif.Props.C08
